@@ -410,11 +410,11 @@ pub fn gen_model(rng: &mut Rng, k: &ModelKnobs) -> MModel {
     }
     if k.core_only && rng.chance(3, 5) {
         // thread tier: a tag-dense model. A large bias makes every character its own token and
-        // the tokens "a" and "b" carry several candidates with different scores, so that nearly
+        // the tokens "a", "b" and "é" (two bytes) carry several candidates with different scores, so that nearly
         // every fill_tags call on a text over {a, b, ...} does real, token-specific work.
         m.bias = 1000 + rng.irange(0, 50);
-        m.tag_models.retain(|t| t.token != "a" && t.token != "b");
-        for (tok, sign) in [("a", 1), ("b", -1)] {
+        m.tag_models.retain(|t| t.token != "a" && t.token != "b" && t.token != "é");
+        for (tok, sign) in [("a", 1), ("b", -1), ("é", 1)] {
             let n_cat = rng.range(1, 2);
             let mut tags = vec![];
             for c in 0..n_cat {
